@@ -26,7 +26,12 @@ def render : Obj → String
   | .ratio n d => s!"r{n}/{d}"
   | .flo ty tok => s!"f{tyTag ty}:{hexBytes tok}"
   | .timeLike _ => "@"
-  | .sym n => s!"y{hexBytes n}"
+  | .sym n =>
+    -- a symbol spelled @<digit>… is compared as a class with slip's time literals (the harness
+    -- renders both a Time and such a Symbol as "@")
+    match n with
+    | 64 :: d :: _ => if isDigit d then "@" else s!"y{hexBytes n}"
+    | _ => s!"y{hexBytes n}"
   | .str bs => s!"s{hexBytes bs}"
   | .chr cp => s!"c{cp}"
   | .bits bs => "b" ++ String.ofList (bs.map (fun b => if b then '1' else '0'))
